@@ -234,3 +234,38 @@ for k in (7, 8, 9, 10):
     args = ", ".join(str(i + 1) for i in range(k))
     w(f"rot{k}", body(rot1, "r1") + body(rot3, "r3") + body(swap, "sw") +
       f"def main(n: i64): i64 {{ println_i64(r1({args}, n)); println_i64(r3({args}, n)); println_i64(sw({args}, n)); println_i64(r1({args}, 1)); println_i64(sw({args}, 2)); 0 }}\n")
+
+# ---- codata-typed let: the bound term is evaluated BY NAME (at every use, not at the binding), effects included
+w("byname_let_twice", FUN + """
+def main(n: i64): i64 {
+  let f: Fun[i64, i64] = (println_i64(n); new { apply(x) => x + n });
+  println_i64(11);
+  println_i64(f.apply[i64, i64](1));
+  println_i64(f.apply[i64, i64](2));
+  0
+}
+""")
+w("byname_let_unused", FUN + """
+def main(n: i64): i64 {
+  let f: Fun[i64, i64] = (println_i64(n + 100); new { apply(x) => x });
+  let g: Fun[i64, i64] = (exit 3);
+  println_i64(12);
+  n
+}
+""")
+w("byname_let_if", FUN + """
+def pick(n: i64): i64 {
+  let f: Fun[i64, i64] = if n == 0 { (println_i64(1); new { apply(x) => x + 1 }) } else { (println_i64(2); new { apply(x) => x * 2 }) };
+  (f.apply[i64, i64](n)) + (f.apply[i64, i64](10))
+}
+def main(n: i64): i64 { println_i64(pick(0)); println_i64(pick(n + 1)); 0 }
+""")
+w("byname_arg", FUN + """
+def twice(f: Fun[i64, i64], n: i64): i64 { (f.apply[i64, i64](n)) + (f.apply[i64, i64](n + 1)) }
+def ignore(f: Fun[i64, i64], n: i64): i64 { n }
+def main(n: i64): i64 {
+  println_i64(twice((println_i64(5); new { apply(x) => x + n }), 1));
+  println_i64(ignore((println_i64(6); new { apply(x) => x }), 2));
+  0
+}
+""")
